@@ -4,6 +4,9 @@ import Faithful.Lib.Varint
 import Faithful.Lib.CompactIndex
 import Faithful.Lib.Car
 import Faithful.Generated.Consts
+import Faithful.Generated.ReadSites
+import Faithful.Lib.Bucketteer
+import Faithful.Lib.GsfaLog
 
 /-!
 # C13: every reader of an on-disk file as a `RA.Prog` (reads through `ReadAt`, a short read is an error)
@@ -158,3 +161,489 @@ theorem runA_eq {α : Type} (p : Prog α) (a : Array UInt8) (n : Nat) : runA p a
     | some bs => exact ih bs
 
 end RA
+
+namespace TR
+open RA B
+
+abbrev Bytes := List UInt8
+abbrev MetaKVs := List (Bytes × Bytes)
+
+def metaGet (m : MetaKVs) (key : Bytes) : Option Bytes := (m.find? fun kv => kv.1 == key).map (·.2)
+
+def resOk {α : Type} : Res α → Option α
+  | .ok a => some a
+  | .err _ => none
+
+/-! ## compactindexsized: `Open` + `DB.Lookup` (cid→offset-and-size, slot→cid, sig→cid, pubkey→offset-and-size) -/
+
+/-- `Header.Load` on the header buffer (the tail of `CI.openB`) -/
+def ciLoad (size : Nat) (buf : Bytes) : Prog CI.DB :=
+  if size < 12 then .fail "invalid header length"
+  else if size > buf.length then .fail "invalid header length"
+  else if buf.length < 25 then .fail "panic: index out of range [24]"
+  else
+    if buf.getD 24 0 ≠ UInt8.ofNat Generated.compactindexsizedVersion then .fail "unsupported index version" else
+    match CI.parseMeta (buf.drop 25) with
+    | none => .fail "failed to unmarshal metadata"
+    | some m =>
+      if unle (slice buf 12 8) = 0 then .fail "value size not set"
+      else if unle (slice buf 20 4) = 0 then .fail "number of buckets not set"
+      else .pure ⟨unle (slice buf 12 8), unle (slice buf 20 4), 12 + size, m⟩
+
+/-- `compactindexsized.Open`: two `ReadAt`s, each `n < len ⇒ return err` -/
+def ciOpenP : Prog CI.DB :=
+  .read 0 12 fun ms =>
+    if ms.take 8 ≠ CI.magic then .fail "invalid magic" else
+    .read 0 (12 + unle (ms.drop 8)) fun buf => ciLoad (unle (ms.drop 8)) buf
+
+/-- `searchEytzinger` over `Bucket.loadEntry` (`ReadAt` on the bucket's `SectionReader`, `n != len ⇒ return err`) -/
+def ciSearchP (base strd hashLen ow numEntries x : Nat) : Nat → Nat → Prog CI.Look
+  | 0, _ => .pure .notFound
+  | fuel+1, index =>
+    if index < numEntries then
+      if index * strd + strd > numEntries * strd then .fail "EOF"
+      else .read (base + index * strd) strd fun eb =>
+        if unle (eb.take hashLen) = x then .pure (.found ((eb.drop hashLen).take ow))
+        else ciSearchP base strd hashLen ow numEntries x fuel
+          (if unle (eb.take hashLen) < x then 2*index+2 else 2*index+1)
+    else .pure .notFound
+
+/-- `DB.Lookup`: `GetBucket` (bounds check, `BucketHeader.readFrom`) then `Bucket.Lookup` -/
+def ciLookupP (hf : CI.HF) (db : CI.DB) (key : Bytes) : Prog CI.Look :=
+  match hf.bucket key db.numBuckets with
+  | none => .pure .hang
+  | some i =>
+    if i ≥ db.numBuckets then .fail "out of bounds bucket index" else
+    .read (db.headerSize + Generated.bucketHdrLen * i) Generated.bucketHdrLen fun bh =>
+      let numEntries := unle (slice bh 4 4)
+      let hashLen := (bh.getD 8 0).toNat
+      let sh := (64 + 256 - (hashLen * 8) % 256) % 256
+      let mask : Nat := if sh ≥ 64 then 0 else (2^64 - 1) / 2^sh
+      ciSearchP (unle (slice bh 10 6)) (CI.stride db.valueSize) hashLen (db.valueSize % 256) numEntries
+        ((hf.entry64 (unle (slice bh 0 4)) key) &&& mask) (numEntries + 1) 0
+
+/-- the optional first read of `indexes.OpenWithReader_SlotToCid / _SigToCid`: `IsFileOldFormat` -/
+def oldFormatP (pre : Bool) : Prog Unit :=
+  if pre then .read 0 8 fun m => if m = Generated.indexesOldMagic then .fail "deprecated index format (not modelled)" else .pure ()
+  else .pure ()
+
+/-- a typed index reader: `OpenWithReader_X` (old-format probe, `Open`, metadata / kind checks `chk`) and `Get` -/
+def ciGetP (pre : Bool) (chk : CI.DB → Option String) (hf : CI.HF) (key : Bytes) : Prog CI.Look :=
+  (oldFormatP pre).bind fun _ =>
+  ciOpenP.bind fun db =>
+    match chk db with
+    | some e => .fail e
+    | none => ciLookupP hf db key
+
+/-- `getDefaultMetadata` + `AssertIndexKind`: the four metadata entries are present and the kind is the expected one -/
+def kindChk (kind : Bytes) (db : CI.DB) : Option String :=
+  match metaGet db.metaKVs Generated.metaKeyKind with
+  | none => some "metadata.kind is empty"
+  | some k =>
+    if (metaGet db.metaKVs Generated.metaKeyEpoch).isNone then some "metadata.epoch is empty"
+    else if (metaGet db.metaKVs Generated.metaKeyRootCid).isNone then some "metadata.rootCid is empty"
+    else if (metaGet db.metaKVs Generated.metaKeyNetwork).isNone then some "metadata.network is empty"
+    else if k ≠ kind then some "unexpected index kind" else none
+
+/-! ### agreement with the reader of `Faithful/Lib/CompactIndex.lean` (the one C04 compares with the real code) -/
+
+theorem ci_rd_eq (f : Array UInt8) (off len : Nat) : CI.rd f off len = readAt f.toList off len := by
+  unfold CI.rd readAt
+  simp only [Array.length_toList]
+  by_cases h : off + len ≤ f.size
+  · simp [h, List.extract_eq_take_drop]
+  · simp [h]
+
+def lookOf : Res CI.Look → CI.Look
+  | .ok l => l
+  | .err _ => .err
+
+theorem ciSearch_agrees (f : Array UInt8) (base strd hashLen ow numEntries x : Nat) (fuel index : Nat) :
+    lookOf (run (ciSearchP base strd hashLen ow numEntries x fuel index) f.toList) =
+      CI.searchB (fun idx =>
+        if idx * strd + strd > numEntries * strd then none else
+        match readAt f.toList (base + idx * strd) strd with
+        | none => none
+        | some eb => some (unle (eb.take hashLen), (eb.drop hashLen).take ow)) x numEntries fuel index := by
+  induction fuel generalizing index with
+  | zero => simp [ciSearchP, CI.searchB, run, lookOf]
+  | succ fuel ih =>
+    unfold ciSearchP CI.searchB
+    by_cases h1 : index < numEntries
+    · simp only [h1, if_true]
+      by_cases h2 : index * strd + strd > numEntries * strd
+      · simp [h2, run, lookOf]
+      · simp only [h2, if_false, run]
+        cases hr : readAt f.toList (base + index * strd) strd with
+        | none => simp [lookOf]
+        | some eb =>
+          simp only
+          by_cases h3 : unle (eb.take hashLen) = x
+          · simp [h3, run, lookOf]
+          · simp only [h3, if_false]
+            exact ih _
+    · simp [h1, run, lookOf]
+
+theorem ciLookup_agrees (hf : CI.HF) (f : Array UInt8) (db : CI.DB) (key : Bytes) :
+    lookOf (run (ciLookupP hf db key) f.toList) = CI.lookupB hf f db key := by
+  unfold ciLookupP CI.lookupB
+  cases hb : hf.bucket key db.numBuckets with
+  | none => simp [run, lookOf]
+  | some i =>
+    simp only
+    by_cases h1 : i ≥ db.numBuckets
+    · simp [h1, run, lookOf]
+    · simp only [h1, if_false, run, ci_rd_eq]
+      cases hr : readAt f.toList (db.headerSize + Generated.bucketHdrLen * i) Generated.bucketHdrLen with
+      | none => simp [lookOf]
+      | some bh =>
+        simp only
+        rw [ciSearch_agrees]
+        rfl
+
+theorem ciOpen_agrees (f : Array UInt8) :
+    resOk (run ciOpenP f.toList) = (match CI.openB f with | .ok db => some db | _ => none) := by
+  unfold ciOpenP CI.openB
+  simp only [run, ci_rd_eq]
+  cases h1 : readAt f.toList 0 12 with
+  | none => simp [resOk]
+  | some ms =>
+    simp only
+    by_cases hm : ms.take 8 ≠ CI.magic
+    · simp [hm, run, resOk]
+    · simp only [hm, if_false, run]
+      cases h2 : readAt f.toList 0 (12 + unle (ms.drop 8)) with
+      | none => simp [resOk]
+      | some buf =>
+        simp only [ciLoad]
+        repeat' split
+        all_goals simp_all [run, resOk]
+
+/-! ## bucketteer (sig-exists): `NewReader` + `Reader.Has` -/
+
+/-- the `prefix -> offset` loop of `readHeader`, keeping only the entry of prefix `p` (a later entry overwrites an
+    earlier one); `none` = the table is shorter than `n` entries (decoder error) -/
+def bkFind (p : Nat) : Nat → Bytes → Option Nat → Option (Option Nat)
+  | 0, _, acc => some acc
+  | n+1, b0 :: b1 :: o0 :: o1 :: o2 :: o3 :: o4 :: o5 :: o6 :: o7 :: rest, acc =>
+    bkFind p n rest (if b0.toNat + 256 * b1.toNat = p then some (unle [o0, o1, o2, o3, o4, o5, o6, o7]) else acc)
+  | _+1, _, _ => none
+
+/-- `searchEytzinger` over `readUint64Le` on the bucket's `SectionReader` (`err != nil ⇒ return err`) -/
+def bkSearchP (base lim x max : Nat) : Nat → Nat → Prog Bool
+  | 0, _ => .pure false
+  | fuel+1, index =>
+    if index < max then
+      if index * 8 + 8 ≤ lim then
+        .read (base + index * 8) 8 fun hb =>
+          if unle hb = x then .pure true
+          else bkSearchP base lim x max fuel (if unle hb < x then 2*index+2 else 2*index+1)
+      else .fail "EOF"
+    else .pure false
+
+/-- `NewReader` (`isReaderEmpty`, `readHeaderSize`, `readHeader`: three `ReadAt`s, then the in-memory decoder), the
+    metadata checks `chk` of the loader, and `Has` for prefix `p` and wanted hash `x` -/
+def bkHasP (chk : MetaKVs → Option String) (p x : Nat) : Prog Bool :=
+  .read 0 1 fun _ =>
+  .read 0 4 fun hs =>
+  .read 4 (unle hs) fun buf =>
+    if buf.take 8 ≠ Generated.bucketteerMagic then .fail "invalid magic" else
+    if ((buf.drop 8).take 8).length < 8 then .fail "failed to read version" else
+    if unle ((buf.drop 8).take 8) ≠ Generated.bucketteerVersion then .fail "unexpected version" else
+    match BK.parseMeta .v2 (buf.drop 16) with
+    | none => .fail "failed to unmarshal metadata"
+    | some (m, r2) =>
+      match chk m with
+      | some e => .fail e
+      | none =>
+        if (r2.take 8).length < 8 then .fail "failed to read numPrefixes" else
+        match bkFind p (unle (r2.take 8)) (r2.drop 8) none with
+        | none => .fail "failed to read prefixes"
+        | some none => .pure false
+        | some (some off) =>
+          if off = 2^64 - 1 then .pure false
+          else if off ≥ 2^63 then .fail "EOF"
+          else .read (unle hs + 4 + off) 4 fun nb =>
+            bkSearchP (unle hs + 4 + off + 4) ((unle nb * 8) % 2^32) x (unle nb) (unle nb + 1) 0
+
+/-! ## slot-to-blocktime -/
+
+structure BT where
+  start : Nat
+  stop : Nat
+  epoch : Nat
+  cap : Nat
+  values : Bytes
+
+/-- `Index.unmarshalBinary`, REPAIRED (every field through `io.ReadFull`): header fields, then `capacity` 4-byte
+    values — all present or an error -/
+def btOpenP : Prog BT :=
+  .read 0 14 fun m =>
+    if m ≠ Generated.blocktimeMagic then .fail "invalid magic" else
+    .read 14 8 fun s => .read 22 8 fun e => .read 30 8 fun ep =>
+      if unle s / Generated.epochLen ≠ unle e / Generated.epochLen then .fail "start and end slots must be in the same epoch"
+      else if unle s / Generated.epochLen ≠ unle ep then .fail "epoch mismatch"
+      else .read 38 8 fun c => .read 46 (4 * unle c) fun vals => .pure ⟨unle s, unle e, unle ep, unle c, vals⟩
+
+/-- `Index.Get(slot)` -/
+def btValue (ix : BT) (slot : Nat) : Prog Nat :=
+  if slot < ix.start ∨ slot > ix.stop then .fail "slot out of range"
+  else if slot - ix.start ≥ ix.cap then .fail "panic: index out of range"
+  else .pure (unle (slice ix.values (4 * (slot - ix.start)) 4))
+
+/-- `blocktimeindex.FromBytes/FromFile/FromReader` + `Get` -/
+def btGetP (slot : Nat) : Prog Nat := btOpenP.bind fun ix => btValue ix slot
+
+/-- the server's load path (epoch.go): `ReadAllFromReaderAt(file, size)` — one exact-size `ReadAt` — and only then
+    the decoder, whatever it is -/
+def exactThenP {α : Type} (size : Nat) (decode : Bytes → Res α) : Prog α :=
+  .read 0 size fun buf => match decode buf with
+    | .ok a => .pure a
+    | .err e => .fail e
+
+/-- `bytes.Reader.Read(buf[len])` at `pos`: `io.EOF` only when nothing is left, otherwise the bytes that are there
+    (the rest of the buffer stays zero) and NO error -/
+def shortRead (f : Bytes) (pos len : Nat) : Option (Bytes × Nat) :=
+  if pos ≥ f.length then none else
+  some ((f.drop pos).take len ++ List.replicate (len - ((f.drop pos).take len).length) 0, pos + ((f.drop pos).take len).length)
+
+def btValuesPinned (f : Bytes) : Nat → Nat → Option (List Nat)
+  | 0, _ => some []
+  | n+1, pos =>
+    match shortRead f pos 4 with
+    | none => none
+    | some (b, p') => (btValuesPinned f n p').map (unle b :: ·)
+
+/-- the decoder of the PINNED tree (`reader.Read`, only the error looked at) followed by `Get(slot)`; the epoch
+    consistency checks are left out (they do not depend on the cut in the example below) -/
+def btGetPinned (f : Bytes) (slot : Nat) : Option Nat :=
+  match shortRead f 0 14 with
+  | none => none
+  | some (m, p1) =>
+    if m ≠ Generated.blocktimeMagic then none else
+    match shortRead f p1 8 with
+    | none => none
+    | some (s, p2) =>
+      match shortRead f p2 8 with
+      | none => none
+      | some (e, p3) =>
+        match shortRead f p3 8 with
+        | none => none
+        | some (_, p4) =>
+          match shortRead f p4 8 with
+          | none => none
+          | some (c, p5) =>
+            match btValuesPinned f (unle c) p5 with
+            | none => none
+            | some vs => if slot < unle s ∨ slot > unle e then none else vs[slot - unle s]?
+
+/-! ## gsfa: linked log, manifest -/
+
+/-- the parse of one record (`uvarint(len z + 9) ‖ z ‖ prev`), as in `Gsfa.readWithSize` (repaired reader) -/
+def llParse (Z : Gsfa.Zstd) (size : Nat) (rec_ : Bytes) : Prog (List Gsfa.Entry × Gsfa.Ptr) :=
+  match Gsfa.uvarint64 rec_ with
+  | none => .fail "invalid record"
+  | some (l, n) =>
+    if n + l ≠ size ∨ l < 9 then .fail "invalid record" else
+    match Z.decompress ((rec_.drop n).take ((rec_.drop n).length - 9)) with
+    | none => .fail "error while decompressing indexes"
+    | some raw =>
+      match Gsfa.parseEntries (raw.length + 1) raw with
+      | .ok es => .pure (es, Gsfa.ptrOfBytes ((rec_.drop n).drop ((rec_.drop n).length - 9)))
+      | .error _ => .fail "failed to parse offset and size"
+
+/-- `LinkedLog.ReadWithSize(offset, size)`: one `ReadAt` (`err != nil ⇒ return err`), then the in-memory parse -/
+def llReadP (Z : Gsfa.Zstd) (off size : Nat) : Prog (List Gsfa.Entry × Gsfa.Ptr) :=
+  if size > Gsfa.mib256 then .fail "compacted indexes length too large" else
+  .read off size (llParse Z size)
+
+/-- the loop of `GsfaReader.Get`: follow the previous-record pointers, newest first; fuel = records visited -/
+def llWalkP (Z : Gsfa.Zstd) : Nat → Gsfa.Ptr → Nat → List Gsfa.Entry → Prog (List Gsfa.Entry)
+  | 0, _, _, _ => .fail "fuel"
+  | fuel+1, next, limit, acc =>
+    if next.isZero then .pure acc
+    else if acc.length ≥ limit then .pure acc
+    else (llReadP Z next.off next.size).bind fun r => llWalkP Z fuel r.2 limit (acc ++ r.1.take (limit - acc.length))
+
+theorem llRead_agrees (Z : Gsfa.Zstd) (f : Bytes) (off size : Nat) :
+    resOk (run (llReadP Z off size) f) = (match Gsfa.readWithSize Z f off size with | .ok a => some a | .error _ => none) := by
+  unfold llReadP Gsfa.readWithSize
+  by_cases h0 : size > Gsfa.mib256
+  · simp [h0, run, resOk]
+  · simp only [h0, if_false, run]
+    unfold readAt
+    by_cases h1 : off + size ≤ f.length
+    · have hl : ¬ (slice f off size).length < size := by simp [slice]; omega
+      simp only [h1, if_true, hl, if_false]
+      change resOk (run (llParse Z size (slice f off size)) f) = _
+      generalize slice f off size = r
+      unfold llParse
+      cases hu : Gsfa.uvarint64 r with
+      | none => simp [run, resOk]
+      | some ln =>
+        obtain ⟨l, n⟩ := ln
+        simp only
+        by_cases hc : n + l ≠ size ∨ l < 9
+        · simp [hc, run, resOk]
+        · simp only [hc, if_false]
+          cases hz : Z.decompress ((r.drop n).take ((r.drop n).length - 9)) with
+          | none => simp [run, resOk]
+          | some raw =>
+            simp only
+            cases hp : Gsfa.parseEntries (raw.length + 1) raw with
+            | ok es => simp [run, resOk]
+            | error e => simp [run, resOk]
+    · by_cases hs : (slice f off size).length < size
+      · simp [h1, hs, resOk]
+      · -- size = 0 and the offset beyond the end: both fail (the parser on an empty record)
+        have hz : size = 0 := by simp [slice] at hs; omega
+        subst hz
+        have h1' : ¬ off ≤ f.length := by omega
+        have e1 : slice f off 0 = [] := by simp [slice]
+        have e2 : Gsfa.uvarint64 [] = none := by rfl
+        simp [h1', resOk, e1, e2]
+
+inductive GsfaAns where
+  | notFound
+  | entries (l : List Gsfa.Entry)
+deriving DecidableEq
+
+/-- `GsfaReader.Get(pk, limit)` over the pubkey→offset-and-size index file and the linked-log file -/
+def gsfaGet (Z : Gsfa.Zstd) (chk : CI.DB → Option String) (hf : CI.HF) (fuel : Nat) (pk : Bytes) (limit : Nat)
+    (idx log : Bytes) : Res GsfaAns :=
+  if limit = 0 then .ok (.entries []) else
+  match run (ciGetP false chk hf pk) idx with
+  | .err e => .err e
+  | .ok .hang => .err "hang"
+  | .ok .err => .err "err"
+  | .ok .notFound => .ok .notFound
+  | .ok (.found v) =>
+    if v.length ≠ 9 then .err "invalid byte slice length" else
+    match run (llWalkP Z fuel (Gsfa.ptrOfBytes v) limit []) log with
+    | .ok l => .ok (.entries l)
+    | .err e => .err e
+
+/-- `indexmeta.Meta.UnmarshalWithDecoder` on a stream starting at `off` (after the count byte): `ReadByte` / `io.ReadFull`
+    per field; returns the pairs and the offset after the last one -/
+def metaKVsP : Nat → Nat → Prog (MetaKVs × Nat)
+  | 0, off => .pure ([], off)
+  | n+1, off =>
+    .read off 1 fun kl => .read (off + 1) (kl.getD 0 0).toNat fun k =>
+    .read (off + 1 + (kl.getD 0 0).toNat) 1 fun vl =>
+    .read (off + 1 + (kl.getD 0 0).toNat + 1) (vl.getD 0 0).toNat fun v =>
+      (metaKVsP n (off + 1 + (kl.getD 0 0).toNat + 1 + (vl.getD 0 0).toNat)).bind fun r => .pure ((k, v) :: r.1, r.2)
+
+structure ManHdr where
+  version : Nat
+  mta : MetaKVs
+  metaSize : Nat
+deriving DecidableEq
+
+/-- `manifest.readHeader`: magic (`io.ReadFull`), version (`binary.Read`), metadata for version ≥ 2 -/
+def manHeaderP : Prog ManHdr :=
+  .read 0 8 fun mg =>
+    if mg ≠ Generated.manifestMagic then .fail "this is not a gsfa manifest file" else
+    .read 8 8 fun v =>
+      if unle v ≥ 2 then
+        .read 16 1 fun c => (metaKVsP (c.getD 0 0).toNat 17).bind fun r => .pure ⟨unle v, r.1, r.2 - 16⟩
+      else .pure ⟨unle v, [], 0⟩
+
+/-- `manifest.NewManifest(path, Meta{})` as `NewGsfaReader` calls it.  NOT a pure `Prog`: the opener looks at the file
+    size — an EMPTY file gets a fresh header (current version, empty metadata) written into it and opens fine; a
+    non-empty one is parsed and its tuple area must be a multiple of 16 bytes -/
+def manifestOpen (f : Bytes) : Res ManHdr :=
+  if f.length = 0 then .ok ⟨Generated.manifestVersion, [], 1⟩ else
+  match run manHeaderP f with
+  | .err e => .err e
+  | .ok h =>
+    if h.version ≠ Generated.manifestVersion then .err "unsupported manifest version"
+    else if (f.length - 16 - h.metaSize) % 16 ≠ 0 then .err "manifest is corrupt"
+    else .ok h
+
+/-- what `NewEpochFromConfig` asks of the gsfa manifest: for version ≥ 2 the metadata must hold the epoch and the
+    root CID (and they must be the expected ones); answers the two stored values -/
+def manifestLoad (wantEpoch : Nat) (wantRoot : Bytes) (f : Bytes) : Res (Nat × Bytes) :=
+  match manifestOpen f with
+  | .err e => .err e
+  | .ok h =>
+    if h.version < 2 then .ok (wantEpoch, wantRoot) else
+    match metaGet h.mta Generated.metaKeyEpoch with
+    | none => .err "the gsfa index does not have the epoch metadata"
+    | some eb =>
+      if eb.length < 8 then .err "panic: index out of range" else
+      if unle (eb.take 8) ≠ wantEpoch then .err "epoch mismatch in gsfa index" else
+      match metaGet h.mta Generated.metaKeyRootCid with
+      | none => .err "the gsfa index does not have the root CID metadata"
+      | some rb => if rb ≠ wantRoot then .err "root CID mismatch in gsfa index" else .ok (unle (eb.take 8), rb)
+
+/-! ## CAR: `carv2.OpenReader` + `GetNodeByOffsetAndSize` / `readNodeFromReaderAtWithOffsetAndSize` -/
+
+/-- `varint.ReadUvarint` through a byte reader: one byte per read -/
+def uvarintP (off : Nat) : Nat → Nat → Nat → Prog (Nat × Nat)
+  | 0, _, _ => .fail "varint overflow"
+  | fuel+1, i, acc =>
+    .read (off + i) 1 fun b =>
+      if (b.getD 0 0).toNat < 128 then .pure (acc + (b.getD 0 0).toNat * 128 ^ i, i + 1)
+      else uvarintP off fuel (i + 1) (acc + ((b.getD 0 0).toNat - 128) * 128 ^ i)
+
+/-- `ReadVersion` / `carv1.ReadHeader`: length varint, then `io.ReadFull` of the dag-cbor header (`hdrOk`: its
+    decoder, third party); answers the header size -/
+def carOpenP (hdrOk : Bytes → Bool) : Prog Nat :=
+  (uvarintP 0 10 0 0).bind fun lw =>
+    if lw.1 = 0 then .fail "invalid header: zero length" else
+    .read lw.2 lw.1 fun hdr => if hdrOk hdr then .pure (lw.2 + lw.1) else .fail "invalid car header"
+
+/-- the read of an indexed section: `io.ReadFull(section[size])` at `off` (local file) or one `ReadAt` (remote), then
+    `parseNodeFromSection` with the CID comparison -/
+def carParse (want : Bytes) (sec : Bytes) : Prog Bytes :=
+  match Car.parseSection sec with
+  | none => .fail "failed to parse section"
+  | some cd => if cd.1 = want then .pure cd.2 else .fail "CID mismatch"
+
+def carNodeP (off size : Nat) (want : Bytes) : Prog Bytes :=
+  if size = 0 then .fail "offsetAndSize.Size must not be 0" else .read off size (carParse want)
+
+theorem hw_carParse (want sec f : Bytes) : hw (carParse want sec) f = 0 := by
+  unfold carParse
+  repeat' split
+  all_goals simp [hw]
+
+theorem hw_llParse (Z : Gsfa.Zstd) (size : Nat) (r f : Bytes) : hw (llParse Z size r) f = 0 := by
+  unfold llParse
+  repeat' split
+  all_goals simp [hw]
+
+def carGetP (hdrOk : Bytes → Bool) (off size : Nat) (want : Bytes) : Prog Bytes :=
+  (carOpenP hdrOk).bind fun _ => carNodeP off size want
+
+theorem carNode_agrees (car : Bytes) (off size : Nat) (want : Bytes) (hs : size ≠ 0) :
+    resOk (run (carNodeP off size want) car) = Car.nodeAt car off size want := by
+  unfold carNodeP Car.nodeAt
+  simp only [hs, if_false, run]
+  unfold readAt
+  by_cases h : off + size ≤ car.length
+  · have h' : ¬ off + size > car.length := by omega
+    simp only [h, h', if_true, if_false]
+    change resOk (run (carParse want (slice car off size)) car) = _
+    unfold carParse
+    cases hp : Car.parseSection (slice car off size) with
+    | none => simp [run, resOk]
+    | some cd =>
+      obtain ⟨c, d⟩ := cd
+      by_cases hc : c = want <;> simp [hc, run, resOk]
+  · have h' : off + size > car.length := by omega
+    simp [h, h', resOk]
+
+/-- `Epoch.GetNodeByCid` over the cid→offset-and-size index file and the CAR file -/
+def epochGetNode (hdrOk : Bytes → Bool) (chk : CI.DB → Option String) (hf : CI.HF) (cid : Bytes) (idx car : Bytes) : Res Bytes :=
+  match run (ciGetP false chk hf cid) idx with
+  | .err e => .err e
+  | .ok .hang => .err "hang"
+  | .ok .err => .err "err"
+  | .ok .notFound => .err "not found"
+  | .ok (.found v) =>
+    if v.length ≠ 9 then .err "invalid byte slice length" else
+    run (carGetP hdrOk (unle (v.take 6)) (unle (v.drop 6)) cid) car
+
+
+end TR
